@@ -296,7 +296,9 @@ def run(v, tier, seed):
                     chosen.append(x)
         for x in chosen:
             plan.append((x, [(c, "full") for c in configs]))
-        for x in rnd.sample(fixed, min(6, len(fixed))):
+        # (the schema's own name as an entity name is in every tier)
+        own = [x for x in fixed if x.rec["names"][0] == PKG]
+        for x in own + rnd.sample([x for x in fixed if x not in own], min(6, len(fixed) - len(own))):
             plan.append((x, [(c, "full") for c in configs]))
         for x in keyword:                       # sbeppc refuses these: no compiler run unless that changes
             plan.append((x, [(c, "full") for c in configs]))
